@@ -1,10 +1,11 @@
 (* C11 — independent code does not change the analysis of other code.
    ti keeps its state in global tables and in flags of the parser; an independent fragment can reach other code only
-   through them.  Three such channels are closed by theorems; the property as a whole is run as a metamorphic test.
+   through them.  Four such channels are closed by theorems; the property as a whole is run as a metamorphic test.
    (1) the parser flag: a `[` opening a line is never an index on the value of the previous line (ParserP.v);
    (2) narrowing: after any conditional every variable has its previous type (C10_restore, NarrowP.v);
-   (3) the configuration: no call of a fragment alters an entry of the builtin table (C12, HeapP.v). *)
-From RT Require Import Model.Lexer Model.Parser Proofs.ParserP Model.Narrow Proofs.NarrowP Model.Heap Proofs.HeapP.
+   (3) the configuration: no call of a fragment alters an entry of the builtin table (C12, HeapP.v);
+   (4) the parser's list of returned types: a lambda leaves it as it found it (ReturnsP.v). *)
+From RT Require Import Model.Lexer Model.Parser Proofs.ParserP Model.Narrow Proofs.NarrowP Model.Heap Proofs.HeapP Model.Returns Proofs.ReturnsP.
 
 Theorem C11_bracket_opens_a_statement : forall sp dg up lo V bc fuel p0 r p',
   pungot p0 = false -> ((ptoken p0 =? Z.of_N ch_nl)%Z || negb (phas_token p0)) = true ->
@@ -21,3 +22,21 @@ Theorem C11_calls_leave_the_table : forall append matches h mts,
   preserved (next h) h (fst (union_accumulate fixed_heap append matches h mts)).
 Proof. exact union_accumulate_frame. Qed.
 Print Assumptions C11_calls_leave_the_table.
+
+(* inserting a lambda — whatever its body returns — anywhere before the last statement of a method body, also inside
+   the blocks and lambdas of that body at any depth, leaves the type of the method unchanged *)
+Theorem C11_lambda_returns_are_local : forall lb pre pre' post, ins (RLambda lb) pre pre' -> post <> [] ->
+  method_type true (pre' ++ post) = method_type true (pre ++ post).
+Proof. exact lambda_insertion. Qed.
+Print Assumptions C11_lambda_returns_are_local.
+
+(* the pinned code treated a lambda as a block: `return` in it counted for the method (repaired by a fix: commit) *)
+Theorem C11_lambda_pinned_refuted : exists lb pre post, post <> [] /\
+  method_type false (pre ++ RLambda lb :: post) <> method_type false (pre ++ post).
+Proof. exact lambda_pinned_refuted. Qed.
+Print Assumptions C11_lambda_pinned_refuted.
+
+Example C11_lambda_example :
+  method_type true [RBlock [RLambda [RReturn "String"]; RReturn "Symbol"] "Array<Integer>"; RExpr "Integer"] = ["Symbol"; "Integer"] /\
+  ins (RLambda [RReturn "String"]) [RBlock [RReturn "Symbol"] "Array<Integer>"] [RBlock [RLambda [RReturn "String"]; RReturn "Symbol"] "Array<Integer>"].
+Proof. split; [vm_compute; reflexivity|]. apply (ins_block _ [] [RReturn "Symbol"] _ "Array<Integer>" []). apply (ins_here _ [] [RReturn "Symbol"]). Qed.
